@@ -57,7 +57,13 @@ def inflate_table_rules(ck, P):
     for b in en:
         for g, lvl in sig.backward_guards(fn, b, depth=2):
             names |= set(g.names)
-    ck.decide(len(en) >= 4 and {"ENOUGH_LENS", "ENOUGH_DISTS"} <= names, R, "table-space", "used > ENOUGH_LENS / ENOUGH_DISTS checked before and during sub-table creation",
+    if not ({"ENOUGH_LENS", "ENOUGH_DISTS"} <= names):
+        # the comparisons may be computed as a boolean value first (a predicate helper, a named condition)
+        from .. import condparity
+        for s_, toks in condparity.rust_atoms(fn):
+            if s_.rel in ("Le", "Lt") and {"ENOUGH_LENS", "ENOUGH_DISTS"} & set(s_.names):
+                names |= {"ENOUGH_LENS", "ENOUGH_DISTS"} & set(s_.names)
+    ck.decide(len(en) >= 2 and {"ENOUGH_LENS", "ENOUGH_DISTS"} <= names, R, "table-space", "used > ENOUGH_LENS / ENOUGH_DISTS checked before and during sub-table creation",
               "inflate_table's table-space checks against ENOUGH_LENS/ENOUGH_DISTS changed (%d sites, names %s)" % (len(en), sorted(n for n in names if n.startswith("ENOUGH"))), where(fn))
     # the three code kinds use the right base/extra tables and end-of-block threshold
     named = shape.fn_named_consts(fn)
